@@ -145,11 +145,14 @@ impl<'a, T: IteTable<'a, BddPtr<'a>> + Default> RobddBuilder<'a, T> {
         self.new_var(false)
     }
 
-    /// Get the current variable order
+    /// Get (a snapshot of) the current variable order.
+    ///
+    /// The order lives in a `RefCell` and is extended by `new_label`; handing out a plain
+    /// `&VarOrder` behind the `RefCell`'s back let `new_label` reallocate the vectors under a
+    /// live shared reference (use after free from safe code), so a copy is returned.
     #[inline]
-    pub fn order(&self) -> &VarOrder {
-        // TODO fix this, it doesn't need to be unsafe
-        unsafe { &*self.order.as_ptr() }
+    pub fn order(&self) -> VarOrder {
+        self.order.borrow().clone()
     }
 
     // condition a BDD *only* if the top variable is `v`; used in `ite`
